@@ -20,13 +20,13 @@ func init() {
 func (c11) ID() string    { return "C11" }
 func (c11) Level() string { return "exploration" }
 func (c11) Rule() string {
-	return "A case is a C01-style seeded history whose policy also declares 1-2 global rules (threshold k in 1..3 over patterns that match the reference under verification, another reference, or everything; block-force-pushes over main or all branches), with force pushes (targets that do not descend from the previous state) and policy edits that add, change or remove global rules. The identical operation list is executed twice in the same process — once as generated (P+G) and once with every global rule stripped from every policy state (P) — which exact replay makes comparable. Oracles: (i) the model's direct rule under P+G (a change failing a matching global rule must be rejected even on an unprotected namespace; authorised-and-compliant histories must be accepted); (ii) monotonicity: a verification that accepts under P+G must accept under P. Distinct = distinct (policy shape incl. global rules, entry pattern, both verdict vectors); non-trivial = a global rule matched at least one verified entry and at least 2 entries exist on a verified reference."
+	return "A case is a C01-style seeded history whose policy also declares 1-2 global rules (threshold k in 1..3 over patterns that match the reference under verification, another reference, or everything; block-force-pushes over main or all branches), with force pushes (targets that do not descend from the previous state) and policy edits that add, change or remove global rules. The identical operation list is executed twice in the same process — once as generated (P+G) and once with every global rule stripped from every policy state (P) — which exact replay makes comparable. Oracles: (i) the model's direct rule under P+G (a change failing a matching global rule must be rejected even on an unprotected namespace; authorised-and-compliant histories must be accepted); (ii) monotonicity: a verification that accepts under P+G must accept under P. Distinct = distinct (policy shape incl. global rules, entry pattern, both verdict vectors); non-trivial = a global rule matched at least one verified entry and at least 2 entries exist on a verified reference. Network slice (workers 0-2, every 40th of their cases; real git): a controller repository whose root declares one of {nothing, threshold 2 on main, block-force-pushes on main, threshold 2 on another branch} and a network repository that follows it and whose own root declares one of {nothing, an unrelated block-force-pushes rule, threshold 1 or 2 on main, block-force-pushes on main}; the controller's root is brought in by gittuf's own propagation; 1-4 pushes to main (one signer, signer plus approval, history rewrite), optionally one before the propagation; oracle: full verification rejects exactly when some push fails a matching global rule of either root in force at that push."
 }
 func (c11) Components() map[string]string {
-	return map[string]string{"internal/policy verifier (global rules, exhaustive verifier)": "real", "pkg/rsl": "real", "gitstore.Storer": "stub (SimStore)"}
+	return map[string]string{"internal/policy verifier (global rules, exhaustive verifier)": "real", "pkg/rsl": "real", "gitstore.Storer": "stub (SimStore)", "network slice: experimental/gittuf propagation, internal/propagation, pkg/gitinterface, git 2.39": "real"}
 }
 func (c11) Assumptions() []string {
-	return []string{"authenticated principals for a global threshold = distinct principals defined anywhere in the policy state in force who signed the entry or the approval bound to the exact change", "controller-declared global rules are not generated (they need a second repository; see C18 for the multi-repository engine)"}
+	return []string{"authenticated principals for a global threshold = distinct principals defined anywhere in the policy state in force who signed the entry or the approval bound to the exact change", "controller-declared global rules are exercised only in the real-git network slice (a controller's root reaches a repository by cloning and propagation)"}
 }
 
 func stripGlobal(p *world.PolicySpec) *world.PolicySpec {
@@ -35,7 +35,10 @@ func stripGlobal(p *world.PolicySpec) *world.PolicySpec {
 	return n
 }
 
-func (c11) Generate(r *core.Rand, tier string, idx uint64) *core.Case {
+func (d c11) Generate(r *core.Rand, tier string, idx uint64) *core.Case {
+	if c11IsNetCase(idx) {
+		return d.generateNet(r, tier, idx)
+	}
 	c := &core.Case{Property: "C11", Engine: "simstore", Config: map[string]int{}, Flags: map[string]bool{}}
 	cfg := drawPWCfg(r, tier)
 	cfg.globalRules = false // drawn here instead
@@ -69,6 +72,9 @@ func (c11) Generate(r *core.Rand, tier string, idx uint64) *core.Case {
 }
 
 func (d c11) Execute(c *core.Case) *core.Result {
+	if c.Engine == "git" {
+		return d.executeNet(c)
+	}
 	res := &core.Result{}
 	keys := pwKeys(c.Config["nDev"])
 	refs := []string{mainRef, relRef, openRef}
